@@ -20,9 +20,9 @@ Definition good_outcome {A} (wf : A -> Prop) (bound : Z) (o : outcome A) : Prop 
 
 Lemma file_open_len : forall tag f m, file_open tag f = Some m -> len m <= flen f /\ galloc m = 0.
 Proof.
-  intros tag f m H. unfold file_open in H. destruct (read_word (open_stream f)) as [w s] eqn:RW.
-  destruct (bytes_eqb w tag && good s); [|discriminate]. inversion H; subst.
-  apply read_word_slen in RW. unfold len, flen, slen in *. simpl in *. split; [lia|reflexivity].
+  intros tag f m H. unfold file_open in H. destruct (getline (open_stream f)) as [w s] eqn:RW.
+  destruct (bytes_eqb (trim w) tag && good s); [|discriminate]. inversion H; subst.
+  apply getline_slen in RW. unfold len, flen, slen in *. simpl in *. split; [lia|reflexivity].
 Qed.
 Lemma create_spec : forall A tag (rd : env -> mon -> res (option A)) E f cost (wf : A -> Prop),
   0 <= cost ->
